@@ -131,6 +131,9 @@ def do_chunk(chunk, exe=None, cfg=None):
         lines = [rt.gensalt_line("rn", prefix, count, rb, nr, sz) for sz in [refsz] + SIZES]
         rows = rt.run_resilient(w, ["preerrno %d" % rt.stale_errno(count % 89 + (nr if nr > 0 else 3))], lines, max_deaths=8)
         judge_column(acc, col, rows, lines)
+        if isinstance(rows[0], dict):
+            rt.errno_independence(acc, PID, w, [], lines, rows, FL, (m or "NULL") + (("@" + cfg) if cfg else ""),
+                                  values=((34,) if (count + nr) % 2 else (22,)))
         if cfg:
             acc.count("cfg/" + cfg, len(lines) - 1)
         if len(acc.samples) < 3 and rows and isinstance(rows[0], dict):
